@@ -160,7 +160,7 @@ class DocGen:
         if cls == "QTabWidget":
             for _ in range(rng.randint(1, 4)):
                 if self._budget():
-                    page = self._new(w, rng.choice(("QWidget", "QWidget", "QFrame", "VfWidget")), "widget")
+                    page = self._new(w, rng.choice(("QWidget", "QWidget", "QFrame", "VfWidget", "QTableView", "QTreeView", "QLabel")), "widget")
                     page.tab_page = True
                     self._grow_widget(page, depth + 1)
                 if rng.random() < 0.35 and self._budget():
